@@ -27,7 +27,7 @@ PROPS = {
                 "validator x received-at URL =/!= ACS; single perturbations exhaustively, 2-3-fold sampled",
     },
     "C04": {
-        "modules": ["SamlVerif.Props.C04", "SamlVerif.Props.TransSP", "SamlVerif.Props.TransParse", "SamlVerif.Props.TransArtifact", "SamlVerif.Props.TransMiddleware", "SamlVerif.Props.PureSaml", "SamlVerif.Props.PureSamlsp"],
+        "modules": ["SamlVerif.Props.C04", "SamlVerif.Props.TransBinding", "SamlVerif.Props.TransSP", "SamlVerif.Props.TransParse", "SamlVerif.Props.TransArtifact", "SamlVerif.Props.TransMiddleware", "SamlVerif.Props.PureSaml", "SamlVerif.Props.PureSamlsp"],
         "trusted_base": SP_TB,
         "assumptions": [],
         "rule": "outstanding-ID sets {empty, one, several, containing \"\", near-miss} x InResponseTo {match, other, empty, prefix, extension} at response "
@@ -37,7 +37,7 @@ PROPS = {
 }
 
 PROPS["C09"] = {
-    "modules": ["SamlVerif.Props.C09", "SamlVerif.Props.PureSaml"],
+    "modules": ["SamlVerif.Props.C09", "SamlVerif.Props.TransBinding", "SamlVerif.Props.PureSaml"],
     "trusted_base": SP_TB + ["termination and allocation of xrv, encoding/xml and etree on arbitrary bytes are not modelled (partial): "
                              "the model covers the library's own logic after parsing plus the inflate bound"],
     "assumptions": [],
